@@ -69,6 +69,16 @@ def run(ctx):
         items = [round(rng.gauss(0, 0.05), 3) for _ in range(k)] + [round(rng.uniform(0.3, 1.5) + rng.gauss(0, 0.05), 3) for _ in range(3 * bi)]
         strict, loose = dict(p, threshold=hi), dict(p, threshold=lo)
         ts.append(P.two_runs("CUSUM", strict, loose, items, rng.randrange(10 ** 6), "FirstDriftNotLater", extra={"par": "threshold"}))
+    # Page-Hinkley on streams whose running mean is negative (threshold * mean is then negative: every threshold must alarm at the same sample),
+    # with sharp steps in the monitored direction right after the burn-in
+    for i in range(30 if q else 150):
+        bi = rng.choice([0, 1, 3, 5, 10])
+        p = dict(delta=rng.choice([0.005, 0.05]), burn_in=bi, direction=rng.choice(["positive", "negative"]))
+        lo_, hi_ = sorted(rng.sample([0.25, 0.5, 1.0, 2.0, 5.0, 20.0], 2))
+        base = -rng.choice([0.5, 1.0, 3.0])
+        items = [base] * (bi + rng.randint(0, 2)) + [base + rng.choice([-1, 1]) * rng.choice([1.0, 3.0, 6.0])] + [base + round(rng.gauss(0, 0.3), 2) for _ in range(25)]
+        items += [base * 2 + round(rng.gauss(0, 0.5), 2) for _ in range(25)]
+        ts.append(P.two_runs("PageHinkley", dict(p, threshold=hi_), dict(p, threshold=lo_), items, rng.randrange(10 ** 6), "FirstDriftNotLater", extra={"par": "threshold"}))
     # NN-DVI with two significance levels close to each other and few re-assignments: both runs draw the same re-assignments under the same
     # seed, so the critical values differ only through the quantile - by little, which is when any dependence of the drawing on alpha shows
     for i in range(8 if q else 60):
